@@ -94,6 +94,9 @@ def stepping_oracle(path):
     return data
 
 
+_SHORT_TOGGLE = [0]
+
+
 def short_rows(lst, t):
     """Rows of table t that the listing's short result sets print: {row index: line in the short table}."""
     if getattr(lst, "simulator", "") != "AUTOUGH2" or not any(lst._short):
@@ -122,7 +125,8 @@ def pick_items(lst, tables, rng, rich):
                 rows = sorted(set(rows + (rng.sample(range(nrows), min(nrows, 200)) if len(odd) > 50 else rng.sample(odd, min(len(odd), 6 if rich else 3)))))
         # AUTOUGH2 short output: the rows printed in the short table as well - the one printed first, the last, another
         si = short_rows(lst, t)
-        if si:
+        _SHORT_TOGGLE[0] += 1 if si else 0
+        if si and _SHORT_TOGGLE[0] % 2 == 1:        # every other selection: the others keep every requested row outside the short table
             by_line = sorted(si, key=lambda r_: si[r_])
             rows = sorted(set(rows + [by_line[0], by_line[-1], rng.choice(by_line)]))
         cols = [tab.column_name[0], tab.column_name[-1], rng.choice(tab.column_name)]
